@@ -1,6 +1,6 @@
 (* Lemmas about the IndexMap model (DESIGN.md C03, C04).  Statements exposed in props/C03.v and props/C04.v. *)
 From Viv Require Import Common IndexMap.
-From Coq Require Import Permutation.
+From Coq Require Import Permutation Znumtheory.
 Local Open Scope Z_scope.
 
 (* ------------------------------------------------------------------------------------------------------------ *)
@@ -1061,8 +1061,11 @@ Section Fuel.
 Variable hs : Z -> key -> Z.
 Variable size : Z.
 Variable W : nat.
-(* every key reaches every position within any window of W consecutive salts *)
-Hypothesis cover : forall k s0 p, 0 <= p < size -> exists j, (j < W)%nat /\ hs (s0 + Z.of_nat j) k = p.
+Variable K : key -> Prop.          (* the keys the coverage assumption is about *)
+Variable lo hi : Z.                (* ... and the salts: windows [s0, s0 + W) inside [lo, hi) *)
+(* every such key reaches every position within any window of W consecutive salts *)
+Hypothesis cover : forall k s0 p, K k -> lo <= s0 -> s0 + Z.of_nat W <= hi -> 0 <= p < size ->
+  exists j, (j < W)%nat /\ hs (s0 + Z.of_nat j) k = p.
 
 Definition live_inv (U : list key) (coll : list key) (cur : list kp) : Prop :=
   NoDup (kposs cur) /\ NoDup (kkeys cur ++ coll) /\ incl (kkeys cur ++ coll) U.
@@ -1124,7 +1127,8 @@ Lemma window_progress U : forall w salt coll cur fuel F res_none,
   (exists k j, In k coll /\ (j < w)%nat /\ ~ In (hs (salt + Z.of_nat j) k) (kposs cur)) ->
   (w + F <= fuel)%nat -> res_none = resolve hs fuel salt coll cur ->
   exists fuel' salt' coll' cur', res_none = resolve hs fuel' salt' coll' cur' /\ live_inv U coll' cur' /\
-                                 (length coll' < length coll)%nat /\ (F <= fuel')%nat.
+                                 (length coll' < length coll)%nat /\ (F <= fuel')%nat /\
+                                 incl coll' coll /\ salt <= salt' <= salt + Z.of_nat w.
 Proof.
   induction w as [|w IH]; intros salt coll cur fuel F r HI Hne [k [j [Hk [Hj Hfree]]]] Hf Hr; [lia|].
   destruct fuel as [|f]; [lia|]. destruct coll as [|c coll0]; [contradiction|]. set (coll := c :: coll0) in *.
@@ -1142,20 +1146,23 @@ Proof.
       - apply NoDup_incl_length; [|assumption]. destruct (live_inv_parts _ _ _ HI') as [_ [H _]]. exact H.
       - apply NoDup_incl_length; [|exact Hkeep]. destruct (live_inv_parts _ _ _ HI) as [_ [H _]]. exact H. }
     assert (Hne' : coll' <> []) by (intro E0; rewrite E0 in Hlen; discriminate).
-    destruct (IH (salt + 1) coll' cur' f F r HI' Hne') as [fuel' [salt' [coll'' [cur'' [R1 [R2 [R3 R4]]]]]]]; auto.
+    destruct (IH (salt + 1) coll' cur' f F r HI' Hne') as [fuel' [salt' [coll'' [cur'' [R1 [R2 [R3 [R4 [R5 R6]]]]]]]]]; auto.
     + exists k, j'. split; [now apply Hkeep|]. split; [lia|]. rewrite Ec.
       replace (salt + 1 + Z.of_nat j') with (salt + Z.of_nat (S j')) by lia. exact Hfree.
     + lia.
-    + exists fuel', salt', coll'', cur''. split; [exact R1|]. split; [exact R2|]. split; [|exact R4]. rewrite <- Hlen. exact R3.
+    + exists fuel', salt', coll'', cur''. split; [exact R1|]. split; [exact R2|]. split; [rewrite <- Hlen; exact R3|].
+      split; [exact R4|]. split; [intros x Hx; apply Hsub, R5, Hx | lia].
   - apply forallb_false_ex in E as [k1 [Hk1 F1]]. apply zmem_nIn in F1.
-    exists f, (salt + 1), coll', cur'. repeat split; auto; try apply HI'; [|lia]. apply Hprog. now exists k1.
+    exists f, (salt + 1), coll', cur'. split; [exact Hr|]. split; [exact HI'|]. split; [apply Hprog; now exists k1|].
+    split; [lia|]. split; [exact Hsub | lia].
 Qed.
 
 Theorem resolve_terminates U : forall n coll cur salt fuel,
-  length coll = n -> live_inv U coll cur -> Z.of_nat (length U) <= size ->
+  length coll = n -> live_inv U coll cur -> Z.of_nat (length U) <= size -> (forall k, In k coll -> K k) ->
+  lo <= salt -> salt + Z.of_nat (W * n) <= hi ->
   (W * n <= fuel)%nat -> resolve hs fuel salt coll cur <> None.
 Proof.
-  induction n as [n IHn] using lt_wf_ind. intros coll cur salt fuel Hn HI HU Hf.
+  induction n as [n IHn] using lt_wf_ind. intros coll cur salt fuel Hn HI HU HK Hlo Hhi Hf.
   destruct coll as [|c coll0] eqn:Ec.
   { destruct fuel; simpl; discriminate. }
   rewrite <- Ec in *. assert (Hne : coll <> []) by (rewrite Ec; discriminate).
@@ -1166,20 +1173,22 @@ Proof.
     assert (0 < length coll)%nat by (rewrite Ec; simpl; lia). lia. }
   assert (Hs0 : 0 <= size) by lia.
   destruct (free_position size (kposs cur) Hs0 Hp Hlen) as [p [Hpr Hfree]].
-  destruct (cover c salt p Hpr) as [j [Hj Hhit]].
   destruct n as [|n']; [rewrite Ec in Hn; discriminate|].
+  assert (Hc : In c coll) by (rewrite Ec; now left).
+  destruct (cover c salt p (HK c Hc) Hlo) as [j [Hj Hhit]]; [nia | assumption |].
   destruct (window_progress U W salt coll cur fuel (W * n') (resolve hs fuel salt coll cur) HI Hne) as
-      [fuel' [salt' [coll' [cur' [R1 [R2 [R3 R4]]]]]]]; auto.
-  - exists c, j. split; [rewrite Ec; now left|]. split; [assumption|]. now rewrite Hhit.
+      [fuel' [salt' [coll' [cur' [R1 [R2 [R3 [R4 [R5 R6]]]]]]]]]; auto.
+  - exists c, j. split; [assumption|]. split; [assumption|]. now rewrite Hhit.
   - lia.
-  - rewrite R1. apply (IHn (length coll')) with (salt := salt'); auto; try lia. nia.
+  - rewrite R1. apply (IHn (length coll')) with (salt := salt'); auto; try lia; try nia.
 Qed.
 End Fuel.
 
-(* IndexMap.update finishes within W * |batch| collision rounds when the salt walk of every key covers all positions
-   in every window of W salts and the map has room for the batch *)
-Theorem update_terminates size W m b t fuel :
-  (forall k s0 p, 0 <= p < size -> exists j, (j < W)%nat /\ h_salt size (s0 + Z.of_nat j) k = p) ->
+(* IndexMap.update finishes within W * |batch| collision rounds when the salt walk of every key of the batch covers all
+   positions in every window of W salts among the salts the loop can reach (1 .. W * |batch|), and the map has room *)
+Theorem update_terminates_gen size W m b t fuel :
+  (forall k s0 p, In k (map snd b) -> 1 <= s0 -> s0 + Z.of_nat W <= 1 + Z.of_nat (W * length b) -> 0 <= p < size ->
+     exists j, (j < W)%nat /\ h_salt size (s0 + Z.of_nat j) k = p) ->
   Inj m -> Z.of_nat (length m + length b) <= size -> (W * length b <= fuel)%nat ->
   update size true m b t fuel <> OutOfFuel.
 Proof.
@@ -1217,7 +1226,265 @@ Proof.
   assert (Hlen : (length coll <= length b)%nat).
   { rewrite <- (map_length snd b), <- Hkb. apply NoDup_incl_length; [now apply difference_nodup|].
     intros k Hk1. now apply difference_In in Hk1. }
-  apply (resolve_terminates (h_salt size) size W Hcov (keys_of m ++ map snd b) (length coll) coll cur 1 fuel); auto.
+  apply (resolve_terminates (h_salt size) size W (fun k => In k (map snd b)) 1 (1 + Z.of_nat (W * length b)) Hcov
+           (keys_of m ++ map snd b) (length coll) coll cur 1 fuel); auto.
   - unfold keys_of. rewrite app_length, !map_length. exact Hroom.
+  - intros k Hk1. apply difference_In in Hk1 as [Hk1 _]. now rewrite <- Hkb.
+  - lia.
+  - nia.
   - nia.
 Qed.
+
+Theorem update_terminates size W m b t fuel :
+  (forall k s0 p, 0 <= p < size -> exists j, (j < W)%nat /\ h_salt size (s0 + Z.of_nat j) k = p) ->
+  Inj m -> Z.of_nat (length m + length b) <= size -> (W * length b <= fuel)%nat ->
+  update size true m b t fuel <> OutOfFuel.
+Proof. intros Hcov. apply update_terminates_gen. intros k s0 p _ _ _. apply Hcov. Qed.
+
+(* ------------------------------------------------------------------------------------------------------------ *)
+(* the coverage assumption, proved for the concrete hash: ONE key column, block size coprime to 111111            *)
+(* ------------------------------------------------------------------------------------------------------------ *)
+Lemma col_prod_range ps : forall m out, - two63 <= out < two63 -> - two63 <= col_prod m ps out < two63.
+Proof.
+  induction ps as [|p r IH]; intros m out H; simpl; [assumption|].
+  destruct (Z.div_eucl m 10) as [q d]. apply IH. apply wrap64_range.
+Qed.
+
+(* adding the (ten-digit) salt to the column's prime-power product does not leave the int64 range *)
+Definition no_wrap (c : cell) : Prop := col_prod (conv10 c) primes 1 < two63 - TEN.
+
+Lemma h_salt_single size c s : 0 <= 111111 * s < two63 -> no_wrap c ->
+  h_salt size s [c] = (col_prod (conv10 c) primes 1 + (111111 * s) mod TEN) mod size.
+Proof.
+  intros Hs Hc. unfold h_salt, hash, hash_raw. cbn [fold_left conv10].
+  rewrite (wrap64_id (111111 * s)) by (unfold two63 in *; lia).
+  set (P := col_prod (conv10 c) primes 1) in *. unfold no_wrap in Hc. fold P in Hc.
+  assert (HP : - two63 <= P < two63) by (apply col_prod_range; unfold two63; lia).
+  assert (Hm : 0 <= (111111 * s) mod TEN < TEN) by (apply Z.mod_pos_bound; reflexivity).
+  rewrite (wrap64_id (P + _)) by (unfold two63, TEN in *; lia).
+  rewrite Z.add_0_l, wrap64_id by (unfold two63, TEN in *; lia). reflexivity.
+Qed.
+
+Lemma salt_residue size x : 0 < size -> (size | TEN) \/ 0 <= x < TEN -> (x mod TEN) mod size = x mod size.
+Proof.
+  intros Hs [Hd|Hx]; [|now rewrite (Z.mod_small x TEN)].
+  symmetry. apply Zmod_div_mod; [assumption | reflexivity | assumption].
+Qed.
+
+Lemma mod_eq_divide a b n : n <> 0 -> a mod n = b mod n -> (n | a - b).
+Proof.
+  intros Hn H. exists (a / n - b / n).
+  pose proof (Z_div_mod_eq_full a n) as Ea. pose proof (Z_div_mod_eq_full b n) as Eb. rewrite H in Ea. lia.
+Qed.
+
+Lemma nodup_map_seq {A} (f : nat -> A) n : forall a,
+  (forall i j, (a <= i < a + n)%nat -> (a <= j < a + n)%nat -> f i = f j -> i = j) -> NoDup (map f (seq a n)).
+Proof.
+  induction n as [|n IH]; intros a H; simpl; [constructor|]. constructor.
+  - intro Hi. apply in_map_iff in Hi as [j [E Hj]]. apply in_seq in Hj. assert (j = a) by (apply H; [lia | lia | exact E]). lia.
+  - apply IH. intros i j Hi Hj. apply H; lia.
+Qed.
+
+Lemma single_column_cover size c s0 p :
+  0 < size -> Z.gcd 111111 size = 1 -> no_wrap c -> 0 <= s0 -> 111111 * (s0 + size) <= two63 ->
+  ((size | TEN) \/ 111111 * (s0 + size) <= TEN) -> 0 <= p < size ->
+  exists j, (j < Z.to_nat size)%nat /\ h_salt size (s0 + Z.of_nat j) [c] = p.
+Proof.
+  intros Hs Hg Hc H0 Hmax Hres Hp.
+  set (P := col_prod (conv10 c) primes 1).
+  set (n := Z.to_nat size).
+  set (f := fun j : nat => (P + 111111 * (s0 + Z.of_nat j)) mod size).
+  assert (Hh : forall j, (j < n)%nat -> h_salt size (s0 + Z.of_nat j) [c] = f j).
+  { intros j Hj. assert (Hr : 0 <= 111111 * (s0 + Z.of_nat j) < two63) by (unfold n in Hj; nia).
+    rewrite h_salt_single by assumption. fold P. unfold f.
+    rewrite Z.add_mod by lia. rewrite salt_residue; [|assumption|].
+    - now rewrite <- Z.add_mod by lia.
+    - destruct Hres as [Hd|Hd]; [now left | right; unfold n in Hj; nia]. }
+  assert (Hinj : forall i j, (0 <= i < 0 + n)%nat -> (0 <= j < 0 + n)%nat -> f i = f j -> i = j).
+  { intros i j Hi Hj E. unfold f in E. apply mod_eq_divide in E; [|lia].
+    replace (P + 111111 * (s0 + Z.of_nat i) - (P + 111111 * (s0 + Z.of_nat j)))
+      with ((Z.of_nat i - Z.of_nat j) * 111111) in E by ring.
+    assert (Hrp : rel_prime size 111111) by (apply Zgcd_1_rel_prime; now rewrite Z.gcd_comm).
+    rewrite Z.mul_comm in E. apply Gauss in E; [|assumption]. destruct E as [q Eq].
+    assert (q = 0) by (unfold n in Hi, Hj; nia). subst q. lia. }
+  assert (Hnd : NoDup (map f (seq 0 n))) by now apply nodup_map_seq.
+  assert (Hin : incl (zrange n) (map f (seq 0 n))).
+  { apply NoDup_length_incl; [assumption | unfold zrange; now rewrite !map_length |].
+    intros x Hx. apply in_map_iff in Hx as [j [<- _]]. apply zrange_In. unfold f, n.
+    rewrite Z2Nat.id by lia. now apply Z.mod_pos_bound. }
+  assert (Hpz : In p (zrange n)) by (apply zrange_In; unfold n; rewrite Z2Nat.id; lia).
+  apply Hin, in_map_iff in Hpz as [j [E Hj]]. apply in_seq in Hj. exists j. split; [lia|].
+  rewrite Hh by lia. exact E.
+Qed.
+
+(* C03_fuel for the concrete hash: a batch of ONE-column keys in a block whose size is coprime to 111111 = 3*7*11*13*37
+   is registered within size * |batch| collision rounds.  [no_wrap]: the int64 sum "prime-power product + salt" of
+   the key does not wrap (it holds for every key whose product lies below 2^63 - 10^10, i.e. all but a 1.1e-9
+   fraction of the int64 range); the last two hypotheses keep 111111 * salt below 2^63 and, unless the size divides
+   10^10 (as the default 10^6 does), below 10^10, where the ten-digit reduction of the salt would restart the walk. *)
+Theorem update_terminates_single_column size m b t fuel :
+  0 < size -> Z.gcd 111111 size = 1 ->
+  (forall k, In k (map snd b) -> exists c, k = [c] /\ no_wrap c) ->
+  Inj m -> Z.of_nat (length m + length b) <= size ->
+  111111 * (1 + size * Z.of_nat (length b)) <= two63 ->
+  ((size | TEN) \/ 111111 * (1 + size * Z.of_nat (length b)) <= TEN) ->
+  (Z.to_nat size * length b <= fuel)%nat ->
+  update size true m b t fuel <> OutOfFuel.
+Proof.
+  intros Hs Hg Hk Hinj Hroom Hmax Hres Hf. apply (update_terminates_gen size (Z.to_nat size)); auto.
+  intros k s0 p Hin H1 Hw Hp. destruct (Hk k Hin) as [c [-> Hc]].
+  rewrite Nat2Z.inj_mul, Z2Nat.id in Hw by lia.
+  assert (Hmono : 111111 * (s0 + size) <= 111111 * (1 + size * Z.of_nat (length b))) by (apply Z.mul_le_mono_nonneg_l; [lia | exact Hw]).
+  apply single_column_cover; [assumption | assumption | assumption | lia | | | assumption].
+  - eapply Z.le_trans; eassumption.
+  - destruct Hres as [Hd|Hd]; [now left | right; eapply Z.le_trans; eassumption].
+Qed.
+
+(* ------------------------------------------------------------------------------------------------------------ *)
+(* IndexMap.__getitem__                                                                                          *)
+(* ------------------------------------------------------------------------------------------------------------ *)
+Lemma pos_of_sim_Some m s p : pos_of_sim m s = Some p -> exists k, In (s, k, p) m.
+Proof.
+  induction m as [|[[s0 k0] p0] m IH]; simpl; [discriminate|]. cbn [e_sim e_pos fst snd].
+  destruct (s0 =? s) eqn:E.
+  - intros [= <-]. apply Z.eqb_eq in E. subst. exists k0. now left.
+  - intro H. destruct (IH H) as [k Hk]. exists k. now right.
+Qed.
+
+Lemma nodup_map_in {A B} (f : A -> B) l : NoDup l -> (forall x y, In x l -> In y l -> f x = f y -> x = y) -> NoDup (map f l).
+Proof.
+  induction l as [|a l IH]; intros Hn Hi; simpl; [constructor|]. inversion Hn; subst. constructor.
+  - intro Hx. apply in_map_iff in Hx as [y [E Hy]]. assert (y = a) by (apply Hi; [now right | now left | exact E]). now subst.
+  - apply IH; [assumption|]. intros x y Hx Hy. apply Hi; now right.
+Qed.
+
+Lemma nodup_map_eq {A B} (f : A -> B) l a b : NoDup (map f l) -> In a l -> In b l -> f a = f b -> a = b.
+Proof.
+  induction l as [|x l IH]; simpl; intros Hn Ha Hb E; [contradiction|]. inversion Hn as [|? ? Hx Hn']; subst.
+  destruct Ha as [->|Ha], Hb as [->|Hb]; auto.
+  - exfalso. apply Hx. rewrite E. now apply in_map.
+  - exfalso. apply Hx. rewrite <- E. now apply in_map.
+Qed.
+
+Definition lookup_default (m : imap) (s : Z) : Z := match pos_of_sim m s with Some p => p | None => 0 end.
+
+Lemma getitem_all_ok m idx : m <> [] ->
+  (forall s, In s idx -> exists p, pos_of_sim m s = Some p) -> getitem_all true m idx = Ok (map (lookup_default m) idx).
+Proof.
+  intros Hm H. unfold getitem_all. cbn [negb]. destruct m as [|e m']; [contradiction|].
+  replace (forallb _ idx) with true; [reflexivity|]. symmetry. apply forallb_forall. intros s Hs.
+  destruct (H s Hs) as [p ->]. reflexivity.
+Qed.
+
+Lemma getitem_all_inv m idx ps : getitem_all true m idx = Ok ps ->
+  m <> [] /\ ps = map (lookup_default m) idx /\ forall s, In s idx -> exists p, pos_of_sim m s = Some p.
+Proof.
+  unfold getitem_all. cbn [negb]. destruct m as [|e m']; [discriminate|].
+  destruct (forallb _ idx) eqn:E; [|discriminate]. intros [= <-]. split; [discriminate|]. split; [reflexivity|].
+  intros s Hs. rewrite forallb_forall in E. specialize (E s Hs). destruct (pos_of_sim (e :: m') s) as [p|]; [now exists p | discriminate].
+Qed.
+
+(* every registered simulant can be looked up, and gets the position of its own row, in request order *)
+Theorem getitem_all_spec m idx : NoDup (map e_sim m) -> (forall s, In s idx -> exists k p, In (s, k, p) m) -> idx <> [] ->
+  exists ps, getitem_all true m idx = Ok ps /\ Forall2 (fun s p => exists k, In (s, k, p) m) idx ps.
+Proof.
+  intros Hn H Hne. assert (Hm : m <> []).
+  { destruct idx as [|s r]; [contradiction|]. destruct (H s (or_introl eq_refl)) as [k [p Hi]]. intro E; subst; contradiction. }
+  exists (map (lookup_default m) idx). split.
+  - apply getitem_all_ok; [assumption|]. intros s Hs. destruct (H s Hs) as [k [p Hi]]. exists p. now apply (pos_of_sim_In m Hn s k).
+  - clear Hne. induction idx as [|s r IH]; simpl; constructor.
+    + destruct (H s (or_introl eq_refl)) as [k [p Hi]]. unfold lookup_default. rewrite (pos_of_sim_In m Hn s k p Hi). now exists k.
+    + apply IH. intros x Hx. apply H. now right.
+Qed.
+
+(* distinct simulants get distinct positions through the lookup the streams use *)
+Theorem getitem_all_injective m idx ps : Inj m -> NoDup idx -> getitem_all true m idx = Ok ps -> NoDup ps.
+Proof.
+  intros Hi Hn H. apply getitem_all_inv in H as [_ [-> Hf]]. apply nodup_map_in; [assumption|].
+  intros x y Hx Hy E. unfold lookup_default in E.
+  destruct (Hf x Hx) as [px Ex], (Hf y Hy) as [py Ey]. rewrite Ex, Ey in E. subst py.
+  apply pos_of_sim_Some in Ex as [kx Hkx]. apply pos_of_sim_Some in Ey as [ky Hky].
+  assert (Eq : (x, kx, px) = (y, ky, px)) by (apply (nodup_map_eq e_pos m); auto). now inversion Eq.
+Qed.
+
+(* a lookup that succeeded gives the same answer after any later registration *)
+Theorem getitem_all_stable size crn m b t fuel m' idx ps : Inj m -> NoDup (map e_sim m') ->
+  update size crn m b t fuel = Ok m' -> getitem_all true m idx = Ok ps -> getitem_all true m' idx = Ok ps.
+Proof.
+  intros Hi Hn U H. apply getitem_all_inv in H as [Hm [-> Hf]].
+  assert (Hkeep : forall s p, pos_of_sim m s = Some p -> pos_of_sim m' s = Some p).
+  { intros s p E. apply pos_of_sim_Some in E as [k Hk]. apply (pos_of_sim_In m' Hn s k). eapply update_stable; eauto. }
+  assert (Hm' : m' <> []).
+  { destruct m as [|e r]; [contradiction|]. intro E. subst m'. apply (update_stable _ _ _ _ _ _ _ Hi U e). now left. }
+  rewrite getitem_all_ok; [|assumption|].
+  - f_equal. apply map_ext_in. intros s Hs. destruct (Hf s Hs) as [p E]. unfold lookup_default. now rewrite E, (Hkeep s p E).
+  - intros s Hs. destruct (Hf s Hs) as [p E]. exists p. now apply Hkeep.
+Qed.
+
+(* ------------------------------------------------------------------------------------------------------------ *)
+(* RandomnessManager                                                                                             *)
+(* ------------------------------------------------------------------------------------------------------------ *)
+Lemma manager_size_floor cfg pop : 10 * pop <= manager_size cfg pop /\ cfg <= manager_size cfg pop.
+Proof. unfold manager_size. lia. Qed.
+
+Lemma select_cols_ext kcols f f' : (forall c, In c kcols -> zassoc c f = zassoc c f') -> select_cols kcols f = select_cols kcols f'.
+Proof.
+  induction kcols as [|c r IH]; intros H; simpl; [reflexivity|].
+  rewrite (H c) by now left. rewrite IH; [reflexivity|]. intros x Hx. apply H. now right.
+Qed.
+
+Lemma select_cols_missing kcols f c : In c kcols -> zassoc c f = None -> select_cols kcols f = None.
+Proof.
+  induction kcols as [|x r IH]; intros Hi Hz; simpl; [contradiction|]. destruct Hi as [->|Hi].
+  - now rewrite Hz.
+  - rewrite (IH Hi Hz). now destruct (zassoc x f).
+Qed.
+
+Lemma zassoc_In {A} c (f : list (Z * A)) v : zassoc c f = Some v -> In (c, v) f.
+Proof.
+  induction f as [|[a x] f IH]; simpl; [discriminate|]. destruct (a =? c) eqn:E.
+  - intros [= <-]. apply Z.eqb_eq in E. subst. now left.
+  - intro H. right. auto.
+Qed.
+
+Lemma zassoc_unique {A} c (f : list (Z * A)) v : NoDup (map fst f) -> In (c, v) f -> zassoc c f = Some v.
+Proof.
+  induction f as [|[a x] f IH]; simpl; intros Hn Hi; [contradiction|]. inversion Hn as [|? ? Ha Hn']; subst.
+  destruct (a =? c) eqn:E.
+  - apply Z.eqb_eq in E. subst a. destruct Hi as [Hi|Hi]; [now inversion Hi|]. exfalso. apply Ha. apply in_map_iff. now exists (c, v).
+  - destruct Hi as [Hi|Hi]; [inversion Hi; subst; rewrite Z.eqb_refl in E; discriminate | auto].
+Qed.
+
+Lemma zassoc_perm {A} c (f f' : list (Z * A)) : NoDup (map fst f) -> Permutation f f' -> zassoc c f = zassoc c f'.
+Proof.
+  intros Hn HP. assert (Hn' : NoDup (map fst f')) by (eapply Permutation_NoDup; [apply Permutation_map; exact HP | exact Hn]).
+  destruct (zassoc c f) as [v|] eqn:E.
+  - symmetry. apply zassoc_unique; [assumption|]. apply (Permutation_in _ HP). now apply zassoc_In.
+  - destruct (zassoc c f') as [v|] eqn:E'; [|reflexivity].
+    apply zassoc_In, (Permutation_in _ (Permutation_sym HP)), (zassoc_unique c f v Hn) in E'. congruence.
+Qed.
+
+(* a frame that lacks a key column is refused with a RandomnessError (the map, argument of a function, is untouched) *)
+Theorem register_missing_column size kcols m labels f t fuel c :
+  In c kcols -> zassoc c f = None -> register size kcols m labels f t fuel = Rejected ERandomness.
+Proof. intros Hi Hz. unfold register. now rewrite (select_cols_missing kcols f c Hi Hz). Qed.
+
+(* only the key columns of the frame matter, found by label: other columns and the column order are irrelevant *)
+Theorem register_key_columns_only size kcols m labels f f' t fuel :
+  (forall c, In c kcols -> zassoc c f = zassoc c f') ->
+  register size kcols m labels f t fuel = register size kcols m labels f' t fuel.
+Proof. intro H. unfold register. now rewrite (select_cols_ext kcols f f' H). Qed.
+
+Theorem register_column_order_irrelevant size kcols m labels f f' t fuel :
+  NoDup (map fst f) -> Permutation f f' ->
+  register size kcols m labels f t fuel = register size kcols m labels f' t fuel.
+Proof. intros Hn HP. apply register_key_columns_only. intros c _. now apply zassoc_perm. Qed.
+
+(* no key columns configured = CRN off: registration is a no-op *)
+Theorem register_without_key_columns size m labels f t fuel : register size [] m labels f t fuel = Ok m.
+Proof. unfold register. simpl. apply update_crn_off. Qed.
+
+(* the registered batch is the frame's rows restricted to the key columns in configuration order *)
+Theorem register_is_update size kcols m labels f t fuel cols : select_cols kcols f = Some cols ->
+  register size kcols m labels f t fuel = update size (negb (is_nil kcols)) m (batch_of labels cols) t fuel.
+Proof. intro H. unfold register. now rewrite H. Qed.
